@@ -9,11 +9,62 @@ NOTE = ("trusted base: the independent reference model in harness/src/model (sel
 
 # id -> (technique, level text, design ref, extra note)
 CHECKS = {
+ "C01": ("property-based mutation testing against an independent reference signer/verifier (oracle: Ok => presented signature is the reference HMAC of the request as received)",
+         "each run signs tens of thousands of generated requests with the reference signer and applies one of ~30 single-component edits (every signature position included); anything the crate accepts must be acceptable to the model; failures shrink to a minimal request+edit",
+         "DESIGN.md §5 C01"),
  "C02": ("property-based differential testing: reference SigV4 signer + model verdict vs crate verdict, metamorphic respelling",
          "generated logical requests are spelled for the wire in many admissible ways, signed by an independent reference signer on either carrier and must be accepted; tens of thousands (quick) to about a million (thorough) distinct non-trivial cases per run with shrinking to a minimal request",
          "DESIGN.md §5 C02"),
+ "C03": ("grammar-based generation of credential strings + differential oracle on verdict, error kind and provider call log; direct fuzzing of prevalidate",
+         "near-miss credential scopes signed under the foreign scope's own key (the scripted provider even hands that key out) must be refused by the scope rule with zero provider calls; correct scopes must reach the provider with exactly the model's arguments",
+         "DESIGN.md §5 C03"),
+ "C04": ("exhaustive enumeration of whole-second clock offsets and nanosecond neighbours of both bounds + generated (instant, offset, rendering) triples against i128 reference arithmetic",
+         "the window predicate is decided on every second in [-20min,+20min] at boundary server instants, on both bounds to the nanosecond, and on random instants in many renderings; each request is validly signed so only the timestamp can decide",
+         "DESIGN.md §5 C04"),
+ "C05": ("property-based differential testing over (requirement set, header multiset, signed list) with correctly signed requests; model-based operation sequences for VecSignedHeaderRequirements",
+         "requests are correctly signed over whatever list they carry, so acceptance hinges only on the requirement rules; the three container routes and mixed-case declarations are all generated",
+         "DESIGN.md §5 C05"),
+ "C06": ("exhaustive enumeration (secret lengths x capacities, calendar days) + generated inputs compared byte-for-byte with an independent HMAC-SHA256 chain",
+         "every length/capacity pair and the calendar edge cases are enumerated completely; random secrets, dates, regions and services are compared with the model's own SHA-256/HMAC on all ten derivation paths",
+         "DESIGN.md §5 C06"),
+ "C08": ("property-based robustness testing with panic capture: arbitrary and oversized requests, post-signing mutations, direct calls of every public operation",
+         "no-panic is asserted over arbitrary request shapes, 64-200 KiB folded bodies, near-limit URIs, every charset label and direct API calls with hostile arguments; thorough tier adds a libFuzzer campaign",
+         "DESIGN.md §5 C08"),
+ "C09": ("exhaustive enumeration of bytes, escapes and short segment sequences + generated paths, differential against a reference normal form, with idempotence and respelling metamorphic checks",
+         "the finite sub-spaces named by the property are enumerated completely at the level of the path canonicaliser; random paths and an end-to-end confirmation complement them",
+         "DESIGN.md §5 C09"),
+ "C10": ("exhaustive enumeration of bytes and prefix-related orderings + generated multisets under permutation/respelling, differential against a reference, cross-process determinism",
+         "canonical query equality with the reference, permutation/respelling invariance, multiset preservation, and identical output across freshly spawned processes (different hash seeds)",
+         "DESIGN.md §5 C10"),
+ "C11": ("metamorphic property-based testing: one header edit applied to an accepted reference-signed request, old signature kept; reference canonical header block decides",
+         "both directions are asserted: edits that leave the canonical header block unchanged must stay valid, all others must be refused",
+         "DESIGN.md §5 C11"),
+ "C12": ("property-based differential testing with two client semantics (signed-as-folded / signed-verbatim) x server option x content-type variants x body edits",
+         "which of the two possible signatures is accepted pins whether the body was folded or hashed verbatim, for every content-type/charset variant the model specifies",
+         "DESIGN.md §5 C12"),
+ "C13": ("exhaustive pairs/triples of injected defects + random defect subsets; oracle: kind of the lowest-ranked defect (reference model), message-skeleton comparison, documented kind->code/status table",
+         "all pairs (quick) and triples (thorough) of 31 defect classes on both carriers are enumerated; the taxonomy is checked on every error value and on constructed values of all 12 variants",
+         "DESIGN.md §5 C13"),
+ "C14": ("stateful (history-based) property testing with a scripted tower::Service provider and a harness-owned executor",
+         "histories of up to 40 validations share one provider whose readiness, pending states and failures are generated; call counts, ordering, arguments, error pass-through and absence of state leaks are invariants after every step",
+         "DESIGN.md §5 C14"),
+ "C15": ("round-trip property testing of returned (Parts, body, principal, session) against what was submitted / what the provider supplied",
+         "every accepted generated request is compared field by field with its submission; the folded case compares parameter multisets and the canonical path",
+         "DESIGN.md §5 C15"),
+ "C16": ("exhaustive enumeration of two-digit field values / separators / fraction lengths + mutated and random strings against an independent ISO-8601 parser; end-to-end pinning of the instant at the window edge",
+         "accept/reject and the exact instant are compared with a reference parser on both carriers; the stable-API pin (accepted at exactly 900 s, refused 1 ns further) fixes the instant to the nanosecond",
+         "DESIGN.md §5 C16"),
+ "C17": ("property-based search of every observable text (captured log records, errors, Debug/Display of all public values) for 11 encodings of generated high-entropy key material",
+         "generated secrets, all derived keys and the model-computed correct signature of refused requests are searched for in everything the library prints or logs at debug level or above",
+         "DESIGN.md §5 C17"),
+ "C18": ("differential repetition: outcome digests across repetitions, 2-16 concurrent threads (barrier start), and fresh cold-start processes",
+         "a generated corpus is validated repeatedly, concurrently and in fresh processes whose threads race on the lazily initialised globals; interleavings are sampled by the OS scheduler, not enumerated",
+         "DESIGN.md §5 C18"),
+ "C19": ("property-based differential testing of duplicated authentication inputs (16 kinds, both orders, inside or outside the signature) against the reference selection rules",
+         "for each kind of duplicate both the must-accept and the must-reject population are generated; acceptance additionally checks the access key / token the provider saw",
+         "DESIGN.md §5 C19"),
 }
-PENDING = {}
+PENDING = {"C07": "ptrace instruction-trace check not built yet (work in progress; DESIGN.md §5 C07)"}
 
 def main():
     props = [json.loads(l) for l in open(os.path.join(HERE, "properties.jsonl"))]
